@@ -114,7 +114,12 @@ def explore(ctx):
                                                       "collide": {a: "dup", b: "dup", c: "dup.1"}}[kind]}
         # the advance a 'CFF ' table carries is encoded relative to the Private dict's nominalWidthX / defaultWidthX: fonts
         # where zero is the most frequent advance (defaultWidthX = 0) and fonts that set the two values explicitly
-        wkind = ["plain", "plain", "mostly-zero-width", "explicit-default-0", "plain", "explicit-both", "mostly-zero-width", "plain"][i % 8]
+        wkind = ["half-integer", "plain", "mostly-zero-width", "explicit-default-0", "half-integer-odd", "explicit-both", "mostly-zero-width", "plain"][i % 8]
+        if wkind.startswith("half-integer"):
+            # advances ending in .5, with even and with odd integer parts (rounding ties: hmtx rounds them up, the charstring
+            # operand width - nominalWidthX must land on the same integer)
+            for k, g in enumerate(desc["glyphs"]):
+                g["width"] = Fr(400 + 3 * k + (1 if wkind.endswith("odd") else 0)) + Fr(1, 2)
         if wkind == "mostly-zero-width":
             for g in desc["glyphs"][:-1]:
                 g["width"] = Fr(0)
